@@ -1,6 +1,7 @@
 from checks import triples
 from checks.common import Report
 from checks.e1 import run_e1
+from checks.e3nbrun import run_e3nbrun
 from checks.e3numba import run_e3numba
 
 
@@ -10,7 +11,8 @@ def run(tier, seed):
     triples.run_triples(rep, "numba")
     triples.run_quads(rep, "numba", tier)
     run_e3numba(rep, tier, seed)
-    rep.assume("numeric equality of the two kernels and numba's own compilation are not decided",
+    run_e3nbrun(rep, tier, seed)
+    rep.assume("numeric equality of the two kernels is decided on the corpus only (E3 numba execution: the emitted Python text run under CPython with a stub numba.carray vs the LNodes program under C semantics); numba's own compilation is not exercised (numba is not installed)",
                "L-UNPARSE for the Python grammar (depth-2 => all trees), CPython's ast as the Python grammar",
                "descriptor equality and declared sizes are evaluated on the corpus (bounded)")
     rep.trust("runtime/unparse.py, runtime/descriptors.py", "pyvc (E1)")
